@@ -94,6 +94,17 @@ Proof. exact set_fragment_reparses. Qed.
    accepts ONLY what CoreDID::parse accepts, with the same components - so every route yields the verbatim, decomposable value *)
 Theorem C10_did_unguarded_route_sound : forall s m i, no_pct s = true -> core_did_from_base s = Ok (m, i) -> core_did_parse s = Ok (m, i).
 Proof. exact core_did_from_base_sound. Qed.
+(* equality, ordering and hashing agree: Eq holds exactly when Ord answers Equal, Ord is antisymmetric, equal values feed the same bytes
+   to the hasher, and on well-formed values (all that parsing, setting and joining produce outside K_pct) the string form determines the value,
+   so the four relations coincide *)
+Theorem C10_eq_iff_ord_equal : forall u v, url_eqb u v = true <-> url_cmp u v = Eq.
+Proof. exact url_eq_iff_cmp. Qed.
+Theorem C10_ord_antisymmetric : forall u v, url_cmp v u = CompOpp (url_cmp u v).
+Proof. exact url_cmp_antisym. Qed.
+Theorem C10_eq_same_hash : forall u v, url_eqb u v = true -> url_hash_input u = url_hash_input v.
+Proof. exact url_eq_same_hash_input. Qed.
+Theorem C10_eq_iff_same_string : forall u v, wf_url u -> wf_url v -> (url_eqb u v = true <-> did_url_to_string u = did_url_to_string v).
+Proof. exact url_eq_iff_string. Qed.
 (* outside K_pct DIDUrl::parse is total: it never panics *)
 Theorem C10_url_total_pct_free : forall s, no_pct s = true -> did_url_parse s <> Panic.
 Proof. exact did_url_total_pct_free. Qed.
@@ -135,3 +146,7 @@ Print Assumptions C10_set_query_reparses.
 Print Assumptions C10_set_fragment_reparses.
 Print Assumptions C10_url_total_pct_free.
 Print Assumptions C10_did_unguarded_route_sound.
+Print Assumptions C10_eq_iff_ord_equal.
+Print Assumptions C10_ord_antisymmetric.
+Print Assumptions C10_eq_same_hash.
+Print Assumptions C10_eq_iff_same_string.
